@@ -2,9 +2,11 @@
 EXTENDS Lifecycle
 \* constants that a cfg file cannot hold / convenient bundles
 TrAll      == {"pty", "popen", "fd", "socket"}
-DispsAll   == {"default", "ignore"}
+DispsAll   == {"default", "ignore", "core"}
 CodesMC    == {0, 3}
-ExtSigsMC  == {9, 15, 18, 19}         \* KILL, TERM, CONT (ChildContinues), STOP (ChildStops)
+ExtSigsMC  == {3, 9, 18, 19}          \* QUIT (fatal, ignorable by nobody here, dumps core when the child may), KILL,
+                                      \* CONT (ChildContinues), STOP (ChildStops)
+LogsMC     == {"open"}                \* "none" = the behaviours in which LogCloses never happens
 KillSigsQ  == {1, 9, 18}              \* HUP, KILL, CONT
 KillSigsT  == {1, 2, 9, 15, 18, 19}
 NoDevs     == {}
@@ -13,4 +15,7 @@ DevPopen   == {"popen-status-unset"}
 DevSocket  == {"socket-close-raises"}
 DevNoRefresh == {"close-no-refresh"}
 DevNoRecheck == {"no-recheck-after-kill"}
+DevCoreBit == {"signal-with-core-bit"}
+DevSwallow == {"wait-swallows-echild"}
+DevFlush   == {"close-flushes-logs"}
 =============================================================================
